@@ -47,7 +47,13 @@ class StmtMixin:
         m = getattr(self, 'ex_' + type(s).__name__, None)
         if m is None:
             raise Unsupported(f'statement {type(s).__name__}', s)
-        return m(st, s)
+        outs = m(st, s)
+        if not outs and getattr(self, 'cur_unit', None) is not None:
+            # no successor state at all: only sound if the state before the statement is unreachable -- make that an obligation
+            # (guards against an engine rule or a contradictory callee contract silently dropping a path)
+            self.add_obligation('post', st, FALSE, f'no_path_lost_L{getattr(s, "lineno", 0)}', s,
+                                detail='statement has no successor state: ' + ast.unparse(s)[:60])
+        return outs
 
     def as_stmt(self, outs):
         return [Out('ok', o.st) if o.kind == 'ok' else o for o in outs]
@@ -77,6 +83,9 @@ class StmtMixin:
         return self.as_stmt(self.ev(st, s.value))
 
     def ex_Import(self, st, s):
+        st = st.copy()
+        for a in s.names:
+            st.loc[a.asname or a.name.split('.')[0]] = ModuleV(a.name if a.asname else a.name.split('.')[0])
         return [Out('ok', st)]
 
     def ex_ImportFrom(self, st, s):
